@@ -136,8 +136,10 @@ fn check(id: &str, tier: &str) -> i32 {
         ("wall_s".into(), Json::Num(wall)),
         ("violations".into(), Json::i(unknown.len())),
     ]);
-    let _ = std::fs::create_dir_all(format!("{VERIF}/evidence"));
-    if let Err(e) = std::fs::write(format!("{VERIF}/evidence/{id}.json"), ev.render()) { machinery.push(format!("cannot write evidence: {e}")); }
+    // (development runs against a scratch copy of the subject write their evidence elsewhere: LC3MC_EVIDENCE_DIR)
+    let evdir = std::env::var("LC3MC_EVIDENCE_DIR").unwrap_or_else(|_| format!("{VERIF}/evidence"));
+    let _ = std::fs::create_dir_all(&evdir);
+    if let Err(e) = std::fs::write(format!("{evdir}/{id}.json"), ev.render()) { machinery.push(format!("cannot write evidence: {e}")); }
 
     // ---- verdict
     println!("{id} {tier}: evaluations={} states={} transitions={} nontrivial={} outcomes={} exhaustive={} wall={:.1}s",
